@@ -101,7 +101,10 @@ class Link:
         nslots = nslots if nslots is not None else rng.randrange(1, 5)
         # bunch crossing 0 and orbits that are multiples of 65536 are over-represented: the first TDH of such a page has zero bytes where
         # the code looks for the padding of a 16-byte slot
-        bc0 = 0 if rng.random() < 0.15 else rng.randrange(0, 0x100)
+        # ... and the whole range of LHC bunch crossings is used (the frame's last TDH stays below 3564): rules that compare bunch
+        # crossings must hold in the second half of an orbit too (seed C02-G)
+        r_ = rng.random()
+        bc0 = 0 if r_ < 0.15 else (rng.randrange(0, 0x100) if r_ < 0.45 else (rng.randrange(0x100, 3364) if r_ < 0.85 else rng.randrange(3300, 3364)))
         trig_rdh = rng.choice([0x6A03, 0x4813, 0x0893, 0x4893])    # ORBIT|HB(|SOC...)|PHT variants with bit 4 or not
         pages = []
         cur = [itsgen.ihw(self.lanes_mask)]
